@@ -158,9 +158,13 @@ class Result:
 
         shots = cast(int, self._shots)
 
-        ret = {}
+        ret: dict = {}
         for branch in self.branches:
-            ret[branch.outcome] = int(branch.frequency * shots)
+            # NOTE: Several branches may share the same outcome (e.g., when a branch is
+            # created for each shot), hence the counts need to be accumulated.
+            ret[branch.outcome] = ret.get(branch.outcome, 0) + int(
+                branch.frequency * shots
+            )
 
         return ret
 
